@@ -1290,6 +1290,11 @@ bool tNMEA2000::Open() {
     tN2kSyncScheduler::SetSyncOffset();
     #if !defined(N2K_NO_HEARTBEAT_SUPPORT)
     SetHeartbeatIntervalAndOffset(DefaultHeartbeatInterval,10000); // Init default hearbeat interval and offset.
+    // A schedule computed before Open() refers to the previous SyncOffset (0 = the absolute clock). The call above does not
+    // recompute it, if the application had already set exactly the default values.
+    for (int i=0; i<DeviceCount; i++) {
+      if ( Devices[i].HeartbeatScheduler.IsEnabled() ) Devices[i].HeartbeatScheduler.UpdateNextTime();
+    }
     #endif
     if ( OnOpen!=0 ) OnOpen();
   } else {
